@@ -233,6 +233,8 @@ async def run_job(job: dict) -> dict:
                     rkw["content"] = ra["body"].encode()
                 sess.current = r
                 tasks[r] = asyncio.ensure_future(transport.request("POST", ra["path"], **rkw))
+                if not sess.suspend:
+                    await asyncio.wait([tasks[r]])  # nothing suspends: the request runs to its end
                 for _ in range(MAX_TURNS):
                     if tasks[r].done() or r in sess.entered:
                         break
